@@ -3,6 +3,7 @@ package main
 
 import (
 	"bytes"
+	"net"
 	"sort"
 	"strings"
 
@@ -380,6 +381,59 @@ func run(r *Rng, tier string, n int) {
 			m.Answer = []dns.RR{rr}
 			checkMsg(m, k == 0, "per-type")
 			compressedInput(m)
+		}
+	}
+	// the 255-octet limit reached THROUGH a pointer: the suffix is already in the message (as question name, as an
+	// earlier owner), the new name is prefix + suffix with 253..258 wire octets in all; several label shapes, the
+	// name as owner and inside RDATA. Compressed and uncompressed packing must agree on success (checkMsg) and an
+	// accepted message must decode
+	for _, sufLabels := range [][]int{{63, 63, 63}, {63, 63}, {63}, {1, 63, 63, 61}, {10, 20, 30}} {
+		var suf string
+		sufWire := 1
+		for i, n := range sufLabels {
+			suf += strings.Repeat(string(rune('b'+i)), n) + "."
+			sufWire += n + 1
+		}
+		for total := 253; total <= 258; total++ {
+			rest := total - sufWire // wire octets of the prefix labels (each label: length octet + content)
+			var shapes [][]int
+			if rest >= 2 && rest <= 64 {
+				shapes = append(shapes, []int{rest - 1})
+			}
+			if rest >= 4 {
+				a := (rest - 2) / 2
+				b := rest - 2 - a
+				if a >= 1 && a <= 63 && b >= 1 && b <= 63 {
+					shapes = append(shapes, []int{a, b})
+				}
+			}
+			for _, sh := range shapes {
+				pre := ""
+				for i, n := range sh {
+					pre += strings.Repeat(string(rune('p'+i)), n) + "."
+				}
+				name := pre + suf
+				for variant := 0; variant < 3; variant++ {
+					m := new(dns.Msg)
+					m.SetQuestion(suf, dns.TypeNS)
+					switch variant {
+					case 0:
+						m.Answer = []dns.RR{&dns.A{Hdr: dns.RR_Header{Name: name, Rrtype: dns.TypeA, Class: 1}, A: net.IPv4(192, 0, 2, 1).To4()}}
+					case 1:
+						m.Answer = []dns.RR{&dns.NS{Hdr: dns.RR_Header{Name: suf, Rrtype: dns.TypeNS, Class: 1}, Ns: name}}
+					case 2:
+						m.Answer = []dns.RR{&dns.NS{Hdr: dns.RR_Header{Name: suf, Rrtype: dns.TypeNS, Class: 1}, Ns: name}, &dns.A{Hdr: dns.RR_Header{Name: name, Rrtype: dns.TypeA, Class: 1}, A: net.IPv4(192, 0, 2, 1).To4()}}
+					}
+					checkMsg(m, false, "limit-255-through-pointer")
+					st["limit_through_pointer_messages"]++
+					_, valid := dns.IsDomainName(name)
+					mc := m.Copy()
+					mc.Compress = true
+					if _, err := mc.Pack(); (err == nil) != valid {
+						Viol("C04/limit-255-through-pointer/accepts-iff-valid", "compressed Pack of a message holding a name of "+Itoa(total)+" wire octets (valid: "+Btoa(valid)+") returns err="+Btoa(err != nil), map[string]string{"name": name})
+					}
+				}
+			}
 		}
 	}
 	// messages crossing the 16384-octet pointer limit
